@@ -4,6 +4,7 @@ import json, os, glob
 VERIF = os.path.dirname(os.path.dirname(os.path.abspath(__file__)))
 rep = json.load(open(os.path.join(VERIF, "seeded", "REPLAY.json")))
 rows = []
+R3 = {"C02", "C03", "C04", "C05", "C06", "C09", "C12", "C13", "C17", "C19"}
 for d in sorted(glob.glob(os.path.join(VERIF, "seeded", "C*-*"))):
     name = os.path.basename(d); m = json.load(open(os.path.join(d, "meta.json"))); r = rep.get(name, {})
     what = " ".join((m.get("what") or "").split())[:170]
@@ -15,7 +16,7 @@ for d in sorted(glob.glob(os.path.join(VERIF, "seeded", "C*-*"))):
             parts.append("%s: %s" % (c, ("VIOLATION x%d (%s)%s" % (v["violations"], ", ".join(sorted(set(x for x in v["classes"] if x)))[:90],
                                                               "" if v["with_failing_input"] else " no-failing-input-found") if v["violations"] else "passes")))
         res = "; ".join(parts)
-    rows.append((name, "round %d" % (1 if int(name.split("-")[1]) <= 3 else 2), ", ".join(r.get("caught_by", [])) or "**not caught (quick tier)**", res, what))
+    rows.append((name, "round %d" % (1 if int(name.split("-")[1]) <= 3 else 2 if int(name.split("-")[1]) <= 6 else (3 if name.split("-")[0] in R3 else 4)), ", ".join(r.get("caught_by", [])) or "**not caught (quick tier)**", res, what))
 caught = sum(1 for r in rows if not r[2].startswith("**"))
 out = ["# Seeded changes", "",
        "Each directory holds `patch.diff` (against /repo), `demo.py` (passes on the clean tree, fails with the patch) and `meta.json`.",
